@@ -441,7 +441,8 @@ def register_engines(reg):
     k.ens("full-success-means-operation-applied", lambda c: B(z3.Implies(done(c), V.rows(new(c)) == V.sem(c.operation.z, V.rows(c.tree.z)))))
     def narrowed(c):
         P = A(c, "Projection", "columns")(c.operation.z)
-        return z3.And(smt.typ(c.operation.z) == cid(c, "Projection"), z3.IsSubset(P, cols(c, new(c))),
+        # (the narrowed relation never has MORE columns than the node it replaces: what lets the nodes above it be rebuilt)
+        return z3.And(smt.typ(c.operation.z) == cid(c, "Projection"), z3.IsSubset(P, cols(c, new(c))), z3.IsSubset(cols(c, new(c)), cols(c, c.tree.z)),
                       V.s_proj(P, V.rows(new(c))) == V.s_proj(P, V.rows(c.tree.z)))
 
     k.ens("partial-success-only-narrows-a-projection", lambda c: B(z3.Implies(z3.Not(done(c)), z3.Or(new(c) == c.tree.z, narrowed(c)))))
